@@ -488,6 +488,7 @@ impl<const N: usize> IoEx<N> {
         }
         let mut may_alloc = false;
         let mut argclass = 0u64;
+        let mut generic = false;
         match st.op {
             Op::IoWrite | Op::IoWriteAll | Op::IoWriteFmt | Op::IoExtendRef | Op::IoLayout => {
                 let k = st.a;
@@ -757,6 +758,188 @@ impl<const N: usize> IoEx<N> {
                 }
             }
             Op::IoStall => {}
+            // ---- generic deque operations on a byte buffer (1-byte elements without hooks):
+            // element-size-specific code paths of the crate are reached here
+            Op::PushBack | Op::PushFront | Op::TryPushBack | Op::TryPushFront => {
+                let v = self.stamp(1)[0];
+                let full = pre_len == N;
+                let op = st.op;
+                let r = self.call(|b| match op {
+                    Op::PushBack => b.push_back(v).map(Err).unwrap_or(Ok(())),
+                    Op::PushFront => b.push_front(v).map(Err).unwrap_or(Ok(())),
+                    Op::TryPushBack => b.try_push_back(v),
+                    _ => b.try_push_front(v),
+                });
+                if let Some(r) = r {
+                    let back = matches!(op, Op::PushBack | Op::TryPushBack);
+                    let want: Result<(), u8> = if !full {
+                        if back {
+                            self.model.push_back(v)
+                        } else {
+                            self.model.push_front(v)
+                        }
+                        Ok(())
+                    } else if matches!(op, Op::TryPushBack | Op::TryPushFront) || N == 0 {
+                        Err(v)
+                    } else if back {
+                        let e = self.model.pop_front().unwrap();
+                        self.model.push_back(v);
+                        Err(e)
+                    } else {
+                        let e = self.model.pop_back().unwrap();
+                        self.model.push_front(v);
+                        Err(e)
+                    };
+                    if r != want {
+                        self.fail(cls::RET | cls::IDENT, format!("{}({v}) on a byte buffer returned {:?}, expected {:?}", op.name(), r, want));
+                    }
+                }
+                generic = true;
+            }
+            Op::PopBack | Op::PopFront | Op::Remove | Op::SwapRemoveBack | Op::SwapRemoveFront => {
+                let op = st.op;
+                let a = st.a;
+                let r = self.call(|b| match op {
+                    Op::PopBack => b.pop_back(),
+                    Op::PopFront => b.pop_front(),
+                    Op::Remove => b.remove(a),
+                    Op::SwapRemoveBack => b.swap_remove_back(a),
+                    _ => b.swap_remove_front(a),
+                });
+                if let Some(r) = r {
+                    let want = match op {
+                        Op::PopBack => self.model.pop_back(),
+                        Op::PopFront => self.model.pop_front(),
+                        Op::Remove => self.model.remove(a),
+                        Op::SwapRemoveBack => self.model.swap_remove_back(a),
+                        _ => self.model.swap_remove_front(a),
+                    };
+                    if r != want {
+                        self.fail(cls::RET, format!("{}({a}) on a byte buffer returned {:?}, expected {:?}", op.name(), r, want));
+                    }
+                }
+                generic = true;
+            }
+            Op::Swap => {
+                let (a, c) = (st.a, st.b);
+                let expect_panic = a >= pre_len || c >= pre_len;
+                let b: &mut CircularBuffer<N, u8> = &mut self.buf;
+                let r = window(|| b.swap(a, c));
+                match (r.is_ok(), expect_panic) {
+                    (true, false) => self.model.swap(a, c),
+                    (false, true) => {}
+                    (true, true) => self.fail(cls::PANIC_SPEC | cls::RET, "swap with an out-of-bounds index returned normally".into()),
+                    (false, false) => self.fail(cls::PANIC_SPEC | cls::RET, "swap with valid indexes panicked".into()),
+                }
+                generic = true;
+            }
+            Op::TruncateBack | Op::TruncateFront | Op::Clear | Op::MakeContiguous => {
+                let op = st.op;
+                let a = st.a;
+                let r = self.call(|b| match op {
+                    Op::TruncateBack => b.truncate_back(a),
+                    Op::TruncateFront => b.truncate_front(a),
+                    Op::Clear => b.clear(),
+                    _ => {
+                        let l = b.make_contiguous().len();
+                        assert!(l == b.len() && b.as_slices().1.is_empty(), "make_contiguous postcondition");
+                    }
+                });
+                if r.is_some() {
+                    match op {
+                        Op::TruncateBack => self.model.truncate(a),
+                        Op::TruncateFront => {
+                            if a < pre_len {
+                                self.model.drain(..pre_len - a);
+                            }
+                        }
+                        Op::Clear => self.model.clear(),
+                        _ => {}
+                    }
+                }
+                generic = true;
+            }
+            Op::Drain => {
+                let res = st.rs.resolve(pre_len);
+                let word = st.word.clone();
+                let rs = st.rs;
+                let b: &mut CircularBuffer<N, u8> = &mut self.buf;
+                let r = window(|| {
+                    let mut d = crate::with_range!(rs, |r| b.drain(r));
+                    let mut out: Vec<(u8, u8)> = Vec::new();
+                    for w in word.iter() {
+                        match *w {
+                            b'n' => {
+                                if let Some(x) = d.next() {
+                                    out.push((b'n', x));
+                                }
+                            }
+                            b'b' => {
+                                if let Some(x) = d.next_back() {
+                                    out.push((b'b', x));
+                                }
+                            }
+                            _ => {}
+                        }
+                    }
+                    let l = d.len();
+                    (out, l)
+                });
+                let _ = crate::alloc::take_op_allocs();
+                match (r, res) {
+                    (Ok((out, l)), Ok((a, c))) => {
+                        let sel: Vec<u8> = self.model.iter().skip(a).take(c - a).copied().collect();
+                        let (mut lo, mut hi) = (0usize, sel.len());
+                        let mut ok = true;
+                        for (w, x) in out {
+                            if lo >= hi {
+                                ok = false;
+                                break;
+                            }
+                            let want = if w == b'n' {
+                                lo += 1;
+                                sel[lo - 1]
+                            } else {
+                                hi -= 1;
+                                sel[hi]
+                            };
+                            if want != x {
+                                ok = false;
+                            }
+                        }
+                        if !ok || l != hi - lo {
+                            self.fail(cls::DRAIN | cls::RET, format!("drain of a byte buffer yielded the wrong bytes or len (range {a}..{c})"));
+                        }
+                        self.model.drain(a..c);
+                    }
+                    (Err(_), Err(())) => {}
+                    (Ok(_), Err(())) => self.fail(cls::PANIC_SPEC | cls::DRAIN, "drain with an invalid range returned normally".into()),
+                    (Err(_), Ok(_)) => self.fail(cls::PANIC_SPEC | cls::DRAIN, "drain with a valid range panicked".into()),
+                }
+                generic = true;
+                may_alloc = true;
+            }
+            Op::ExtendFromSlice | Op::Fill => {
+                let op = st.op;
+                let data = if op == Op::Fill { self.stamp(1) } else { self.stamp(st.a) };
+                let r = self.call(|b| {
+                    if op == Op::Fill {
+                        b.fill(data[0])
+                    } else {
+                        b.extend_from_slice(&data)
+                    }
+                });
+                if r.is_some() {
+                    if op == Op::Fill {
+                        self.model.clear();
+                        let v = vec![data[0]; N];
+                        self.model_write(&v);
+                    } else {
+                        self.model_write(&data);
+                    }
+                }
+                generic = true;
+            }
             _ => self.fail(cls::HARNESS, format!("op {} is not part of the io scenario", st.op.name())),
         }
 
@@ -767,6 +950,7 @@ impl<const N: usize> IoEx<N> {
             let (s0, s1) = self.buf.as_slices();
             let cat: Vec<u8> = s0.iter().chain(s1.iter()).copied().collect();
             if got != want || cat != want || self.buf.len() != want.len() {
+                let own = if generic { cls::RET } else { own };
                 self.fail(own | cls::CONTENTS, format!("after {}: contents {:?} (len {}) != byte model {:?}", st.op.name(), got, self.buf.len(), want));
             }
         }
@@ -1094,6 +1278,20 @@ const CONSUMER: &[Op] = &[
     Op::IoRead, Op::IoReadExact, Op::IoReadToEnd, Op::IoReadToString, Op::IoReadVectored, Op::IoBytes, Op::IoFillBuf, Op::IoConsume, Op::IoFillConsume, Op::IoReadUntil,
     Op::IoReadLine, Op::IoTake, Op::IoCopyOut,
 ];
+const GENERIC_P: &[Op] = &[Op::PushBack, Op::PushFront, Op::TryPushBack, Op::TryPushFront, Op::ExtendFromSlice, Op::Fill, Op::IoWrite, Op::IoExtendRef];
+const GENERIC_C: &[Op] = &[
+    Op::PopBack, Op::PopFront, Op::Remove, Op::SwapRemoveBack, Op::SwapRemoveFront, Op::Swap, Op::TruncateBack, Op::TruncateFront, Op::Clear, Op::MakeContiguous, Op::Drain,
+    Op::IoRead, Op::IoConsume,
+];
+const ALL_P: &[Op] = &[
+    Op::IoWrite, Op::IoWriteAll, Op::IoWriteVectored, Op::IoWriteFmt, Op::IoFlush, Op::IoCopyIn, Op::IoExtendRef, Op::IoWrite, Op::IoWriteAll, Op::IoCopyIn, Op::PushBack, Op::PushFront,
+    Op::TryPushFront, Op::ExtendFromSlice, Op::Fill,
+];
+const ALL_C: &[Op] = &[
+    Op::IoRead, Op::IoReadExact, Op::IoReadToEnd, Op::IoReadToString, Op::IoReadVectored, Op::IoBytes, Op::IoFillBuf, Op::IoConsume, Op::IoFillConsume, Op::IoReadUntil,
+    Op::IoReadLine, Op::IoTake, Op::IoCopyOut, Op::IoRead, Op::IoFillConsume, Op::IoConsume, Op::PopBack, Op::PopFront, Op::Remove, Op::Swap, Op::TruncateBack, Op::TruncateFront,
+    Op::MakeContiguous, Op::Drain, Op::Clear,
+];
 const COMMON_P: &[Op] = &[Op::IoWrite, Op::IoWriteAll, Op::IoFlush];
 const COMMON_C: &[Op] = &[Op::IoRead, Op::IoReadExact, Op::IoFillBuf, Op::IoConsume, Op::IoFillConsume];
 
@@ -1121,6 +1319,14 @@ fn io_len(rng: &mut Rng, reference: usize, n: usize) -> usize {
     }
 }
 
+fn io_idx(rng: &mut Rng, len: usize, n: usize) -> usize {
+    if rng.below(4) == 0 {
+        *rng.pick(&[0, 1, len.wrapping_sub(1), len, len + 1, n, usize::MAX])
+    } else {
+        rng.below(len as u64 + 1) as usize
+    }
+}
+
 fn peer_plan(rng: &mut Rng) -> Vec<u32> {
     let l = rng.below(6) as usize;
     (0..l)
@@ -1136,8 +1342,15 @@ pub fn gen_io(seed: u64, prop: &str, run: u64) -> Script {
     let pid = prop.bytes().fold(0u64, |a, b| a * 131 + b as u64);
     let mut rng = Rng::new(mix(&[seed, 2, pid, run]));
     let lays = io_layouts();
-    let (prod, cons): (&[Op], &[Op]) = if common_only { (COMMON_P, COMMON_C) } else { (PRODUCER, CONSUMER) };
-    let focus_all: Vec<Op> = prod.iter().chain(cons.iter()).copied().collect();
+    let generic = matches!(prop, "C01io" | "C09io" | "C11io" | "C20io");
+    let (prod, cons): (&[Op], &[Op]) = if common_only {
+        (COMMON_P, COMMON_C)
+    } else if generic {
+        (GENERIC_P, GENERIC_C)
+    } else {
+        (ALL_P, ALL_C)
+    };
+    let focus_all: Vec<Op> = if common_only || generic { prod.iter().chain(cons.iter()).copied().collect() } else { PRODUCER.iter().chain(CONSUMER.iter()).copied().collect() };
     let stratum = run % (lays.len() as u64 * focus_all.len() as u64);
     let (n, r, s) = lays[(stratum % lays.len() as u64) as usize];
     let focus = focus_all[(stratum / lays.len() as u64) as usize];
@@ -1221,6 +1434,35 @@ pub fn gen_io(seed: u64, prop: &str, run: u64) -> Script {
                 len /= 2;
             }
             Op::IoReadLine => len /= 2,
+            Op::PushBack | Op::PushFront | Op::TryPushBack | Op::TryPushFront => len = (len + 1).min(n),
+            Op::PopBack | Op::PopFront => len = len.saturating_sub(1),
+            Op::Remove | Op::SwapRemoveBack | Op::SwapRemoveFront => {
+                st.a = io_idx(&mut rng, len, n);
+                if st.a < len {
+                    len -= 1;
+                }
+            }
+            Op::Swap => {
+                st.a = io_idx(&mut rng, len, n);
+                st.b = io_idx(&mut rng, len, n);
+            }
+            Op::TruncateBack | Op::TruncateFront => {
+                st.a = io_idx(&mut rng, len, n);
+                len = len.min(st.a);
+            }
+            Op::Clear => len = 0,
+            Op::Fill => len = n,
+            Op::ExtendFromSlice => {
+                st.a = io_len(&mut rng, free, n);
+                len = (len + st.a).min(n);
+            }
+            Op::Drain => {
+                st.rs = crate::gen::range_arg(&mut rng, len, n, 10);
+                let sel = st.rs.resolve(len).map(|(a, b)| b - a).unwrap_or(0);
+                let wl = rng.below(sel as u64 + 3) as usize;
+                st.word = (0..wl).map(|_| if rng.below(2) == 0 { b'n' } else { b'b' }).collect();
+                len -= sel;
+            }
             _ => {}
         }
         steps.push(st);
